@@ -13,7 +13,7 @@ package dnsforward
 //vx:stub (*github.com/AdguardTeam/dnsproxy/proxy.Proxy).Resolve vxC01Resolve
 //vx:opaque (net/netip.Addr).String
 //vx:note drives the real (*Server).handleDNSRequest stage pipeline; rule engines (urlfilter) answer with an arbitrary verdict: allow engine {no match, network rule, host rules}, block engine {no match, network rule (Whitelist symbolic), host rules v4 0..2 / v6 0..2 with symbolic addresses}; qtype fully symbolic; five blocking modes + an invalid one; protection on/off/paused (deadline vs clock symbolic); global and per-client filtering flags; <=1 (quick) / <=2 (thorough) blocked services with symbolic rule verdicts and schedule-pause bit; upstream answer = symbolic rcode + one record
-//vx:note ProtectionHistory entry: 2 admin operations from {enable, switch off, pause until a symbolic deadline} through the real SetProtectionStatus, then a query at a symbolic clock
+//vx:note ProtectionHistory entry: 3 (thorough 5) operations from {enable, switch off, pause until a symbolic deadline, let a symbolic time pass and look at the status (UpdatedProtectionStatus) with the worker that ends an expired pause run to completion} through the real SetProtectionStatus / enableProtectionAfterPause, then a query at a symbolic clock
 //vx:note outside: rule syntax -> verdict (urlfilter), $dnsrewrite rules, safe browsing/parental/safe search (off), rewrites (C06), dnsproxy cache and transport
 
 import (
@@ -153,21 +153,46 @@ func vxC01ProtectionHistory() {
 		res.NetworkRule = &rules.NetworkRule{RuleText: "||blocked^", FilterListID: 5}
 		return res, true
 	}
+	s := &Server{dnsFilter: d, dnsProxy: &proxy.Proxy{}, clientIDCache: vxC01Cache{}, addrProc: vxC01AddrProc{}, dhcpServer: vxC01DHCP{}, ipset: &ipsetHandler{logger: slog.Default()}, anonymizer: aghnet.NewIPMut(nil)}
+	s.conf.TLSConf = &TLSConfig{}
+	s.conf.ConfigModified = func() {}
 	// reference state: enabled flag and optional pause deadline
 	refOn, refHasDl, refDl := true, false, int64(0)
-	for i := 0; i < 2; i++ {
-		switch vx.Choice("op", 3) {
+	ran := 0 // goroutines already run
+	nops := 3
+	if vx.Thorough() {
+		nops = 5
+	}
+	for i := 0; i < nops; i++ {
+		switch vx.Choice("op", 4) {
 		case 0:
 			d.SetProtectionStatus(true, nil)
 			refOn, refHasDl = true, false
 		case 1:
 			d.SetProtectionStatus(false, nil)
 			refOn, refHasDl = false, false
-		default:
+		case 2:
 			dl := clock + int64(vx.Byte("pauseFor")) + 1
 			t := time.Unix(dl, 0)
 			d.SetProtectionStatus(false, &t)
 			refOn, refHasDl, refDl = false, true, dl
+		default:
+			// time passes, the status is looked at (every query and the status
+			// API do that) and the worker that ends an expired pause runs
+			clock += int64(vx.Byte("gap"))
+			filtering.VxC01Clock = clock
+			on, _ := s.UpdatedProtectionStatus()
+			for ; ran < vx.Goroutines(); ran++ {
+				vx.RunGoroutine(ran)
+			}
+			want := refOn
+			if refHasDl {
+				want = clock >= refDl
+				if want {
+					refOn, refHasDl = true, false
+				}
+			}
+			vx.Assert(on == want, "the reported protection status follows the switch and the pause deadline")
 		}
 	}
 	now := clock + int64(vx.Uint16("elapsed"))
@@ -177,9 +202,6 @@ func vxC01ProtectionHistory() {
 	req.Id = 1
 	req.Question = []dns.Question{{Name: "blocked.example.org.", Qtype: dns.TypeA, Qclass: dns.ClassINET}}
 	pctx := &proxy.DNSContext{Proto: proxy.ProtoUDP, Req: req, Addr: netip.AddrPortFrom(netip.AddrFrom4([4]byte{192, 168, 1, 7}), 5353), RequestID: 9}
-	s := &Server{dnsFilter: d, dnsProxy: &proxy.Proxy{}, clientIDCache: vxC01Cache{}, addrProc: vxC01AddrProc{}, dhcpServer: vxC01DHCP{}, ipset: &ipsetHandler{logger: slog.Default()}, anonymizer: aghnet.NewIPMut(nil)}
-	s.conf.TLSConf = &TLSConfig{}
-	s.conf.ConfigModified = func() {}
 	vxC01Resolves, vxC01Upstream = nil, nil
 	err := s.handleDNSRequest(nil, pctx)
 	vx.Assert(err == nil, "request processing does not fail")
